@@ -233,6 +233,10 @@ func VH20c_duration_sym() {
 }
 
 type stubSock struct {
+	inbox   [][]byte // messages RecvMsg hands out before it reports recvEnd (default: receive timeout)
+	recvEnd error
+	order   []byte // 's' / 'r' per completed SendMsg / successful RecvMsg
+	listenOpts, dialOpts []map[string]interface{}
 	info   mangos.ProtocolInfo
 	sent   [][]byte
 	sendErr error
@@ -247,6 +251,7 @@ func (s *stubSock) Close() error              { s.closed = true; return nil }
 func (s *stubSock) Send(b []byte) error       { s.sent = append(s.sent, append([]byte{}, b...)); return s.sendErr }
 func (s *stubSock) Recv() ([]byte, error)     { s.recvs++; return nil, mangos.ErrRecvTimeout }
 func (s *stubSock) SendMsg(m *mangos.Message) error {
+	s.order = append(s.order, 's')
 	s.sent = append(s.sent, append(append([]byte{}, m.Header...), m.Body...))
 	if s.sendErr != nil {
 		return s.sendErr
@@ -254,14 +259,34 @@ func (s *stubSock) SendMsg(m *mangos.Message) error {
 	m.Free()
 	return nil
 }
-func (s *stubSock) RecvMsg() (*mangos.Message, error)  { s.recvs++; return nil, mangos.ErrRecvTimeout }
+func (s *stubSock) RecvMsg() (*mangos.Message, error) {
+	s.recvs++
+	if len(s.inbox) > 0 {
+		b := s.inbox[0]
+		s.inbox = s.inbox[1:]
+		s.order = append(s.order, 'r')
+		return mkMsg(b), nil
+	}
+	if s.recvEnd != nil {
+		return nil, s.recvEnd
+	}
+	return nil, mangos.ErrRecvTimeout
+}
 func (s *stubSock) Dial(string) error                  { s.dials++; return nil }
-func (s *stubSock) DialOptions(string, map[string]interface{}) error { s.dials++; return nil }
+func (s *stubSock) DialOptions(a string, o map[string]interface{}) error {
+	s.dials++
+	s.dialOpts = append(s.dialOpts, o)
+	return nil
+}
 func (s *stubSock) NewDialer(string, map[string]interface{}) (mangos.Dialer, error) {
 	return nil, mangos.ErrBadTran
 }
 func (s *stubSock) Listen(string) error                                { s.listens++; return nil }
-func (s *stubSock) ListenOptions(string, map[string]interface{}) error { s.listens++; return nil }
+func (s *stubSock) ListenOptions(a string, o map[string]interface{}) error {
+	s.listens++
+	s.listenOpts = append(s.listenOpts, o)
+	return nil
+}
 func (s *stubSock) NewListener(string, map[string]interface{}) (mangos.Listener, error) {
 	return nil, mangos.ErrBadTran
 }
@@ -359,4 +384,89 @@ func VH20e_options() {
 		verif.Assert(s.listens == 0 && s.dials == 0, lab+"/connected-without-credentials")
 	}
 	verif.Reach("options")
+}
+
+
+// VH20f_run: App.Run from a parsed configuration on a stub socket, for each of
+// the ten patterns macat knows: the right loop runs, the payload is sent
+// exactly as often as asked (solver variable), every message that arrives is
+// printed once in arrival order (raw format: the bytes themselves, arbitrary),
+// every request gets exactly one reply carrying the payload, deadlines and
+// subscriptions are applied, every address is bound / dialled once, and the
+// socket is closed at the end.
+func VH20f_run() {
+	lab := "C20/run"
+	protos := []uint16{mangos.ProtoPush, mangos.ProtoPub, mangos.ProtoPull, mangos.ProtoSub, mangos.ProtoPair, mangos.ProtoBus, mangos.ProtoStar,
+		mangos.ProtoReq, mangos.ProtoSurveyor, mangos.ProtoRep, mangos.ProtoRespondent}
+	names := []string{"push", "pub", "pull", "sub", "pair", "bus", "star", "req", "surveyor", "rep", "respondent"}
+	pi := verif.Choice("proto", len(protos))
+	lab += "/" + names[pi]
+	s := &stubSock{info: mangos.ProtocolInfo{Self: protos[pi]}}
+	w := &capWriter{}
+	count := verif.Int("count")
+	verif.Assume(verif.And(count >= 1, count <= 3))
+	withData := verif.Choice("with-data", 2) == 1
+	var data []byte
+	if withData {
+		data = verif.Bytes("data", verif.Choice("dlen", 3))
+	}
+	in1 := verif.Bytes("in1", 1+verif.Choice("ilen", 2))
+	in2 := verif.Bytes("in2", 1)
+	s.inbox = [][]byte{in1, in2}
+	rt := verif.Duration("recv-timeout")
+	verif.Assume(verif.And(rt >= 0, rt <= time.Hour))
+	a := &App{sock: s, recvTimeout: Duration(rt), sendTimeout: Duration(-1), sendInterval: Duration(-1), sendDelay: Duration(-1), count: count,
+		sendData: data, printFormat: "raw", options: &optopia.Options{}, stdOut: w,
+		bindAddr: []string{"tcp://127.0.0.1:1"}, dialAddr: []string{"ipc:///tmp/x", "inproc://y"}}
+	if names[pi] == "sub" {
+		a.subscriptions = []string{"t1", "t2"}
+	}
+	err := a.Run()
+	both := append(append([]byte{}, in1...), in2...)
+	sends := len(s.sent)
+	switch names[pi] {
+	case "push", "pub":
+		if !withData {
+			verif.Assert(err != nil && sends == 0, lab+"/ran-without-data")
+			break
+		}
+		verif.Assert(err == nil, lab+"/run-error")
+		verif.Assert(sends == count, lab+"/not-sent-the-requested-number-of-times")
+		verif.Assert(len(w.out) == 0 && s.recvs == 0, lab+"/send-only-pattern-received")
+	case "pull", "sub":
+		verif.Assert(err == nil, lab+"/run-error")
+		verif.Assert(sends == 0, lab+"/receive-only-pattern-sent")
+		verif.Assert(verif.BytesEq(w.out, both) && len(w.out) == len(both), lab+"/printed-output-is-not-the-messages-in-order")
+	case "pair", "bus", "star", "req", "surveyor":
+		verif.Assert(err == nil, lab+"/run-error")
+		if withData || names[pi] == "req" || names[pi] == "surveyor" {
+			// no interval: one transmission, then everything that arrives is printed
+			verif.Assert(sends == 1, lab+"/sendrecv-without-interval-sends-once")
+			verif.Assert(len(s.order) > 0 && s.order[0] == 's', lab+"/received-before-sending")
+		} else {
+			verif.Assert(sends == 0, lab+"/sent-without-data")
+		}
+		verif.Assert(verif.BytesEq(w.out, both) && len(w.out) == len(both), lab+"/printed-output-is-not-the-messages-in-order")
+	case "rep", "respondent":
+		verif.Assert(err == nil, lab+"/run-error")
+		if withData {
+			verif.Assert(sends == 2, lab+"/not-exactly-one-reply-per-request")
+			verif.Assert(len(s.order) == 4 && s.order[0] == 'r' && s.order[1] == 's' && s.order[2] == 'r' && s.order[3] == 's', lab+"/replies-not-interleaved-with-requests")
+		} else {
+			verif.Assert(sends == 0, lab+"/replied-without-data")
+		}
+		verif.Assert(verif.BytesEq(w.out, both) && len(w.out) == len(both), lab+"/printed-output-is-not-the-messages-in-order")
+	}
+	for _, b := range s.sent {
+		verif.Assert(len(b) == len(data) && verif.BytesEq(b, data), lab+"/sent-bytes-differ-from-data")
+	}
+	if err == nil {
+		verif.Assert(s.listens == 1 && s.dials == 2, lab+"/addresses-not-bound-and-dialled-once-each")
+		d, ok := s.opts[mangos.OptionRecvDeadline].(time.Duration)
+		verif.Assert(ok && d == rt, lab+"/receive-timeout-not-applied")
+		_, hasSend := s.opts[mangos.OptionSendDeadline]
+		verif.Assert(!hasSend, lab+"/send-timeout-applied-although-not-given")
+	}
+	verif.Assert(s.closed, lab+"/socket-left-open")
+	verif.Reach("ran")
 }
